@@ -226,6 +226,14 @@ StreamPlans(s) ==
   \cup {P("proof_rand", "any", [s EXCEPT !.proof.mut = "w_rand"])}
   \cup {P("value_proof_rand", "not_accept", [s EXCEPT !.proof.mut = "w_rand", !.vals[1][1].d = 1])}
   \cup {P("value_proof_other_polys", "not_accept", [s EXCEPT !.proof.ps[k] = q, !.vals[k][1].d = 1]) : <<k, q>> \in {t \in (1..n) \X (1..NPolys) : t[2] # s.proof.ps[t[1]]}}
+  \* a point listed twice, the claims at its second occurrence true / false for the first polynomial: the batch
+  \* must not be laxer than the claims one by one (the code divides by the difference of the two points)
+  \cup {P("dup_point", "not_accept",
+          [s EXCEPT !.points = Append(@, s.points[1]),
+                    !.vals = [k \in DOMAIN @ |-> Append(@[k], [HonestVal(s.comms[k], s.points[1]) EXCEPT !.d = IF k = 1 THEN 1 ELSE 0])]])}
+  \cup {P("dup_point_true", "any",
+          [s EXCEPT !.points = Append(@, s.points[1]),
+                    !.vals = [k \in DOMAIN @ |-> Append(@[k], HonestVal(s.comms[k], s.points[1]))]])}
   \* single-point API
   \cup {P("single_value", "not_accept_single", [s EXCEPT !.single.vals[1].d = d]) : d \in {1, -1}}
   \cup {P("single_point", IF ValueIs(s.single.vals[1], s.single.comms[1], TamperPt) THEN "any" ELSE "not_accept_single",
